@@ -67,6 +67,11 @@ func (r *Re) String() string {
 		return strings.Join(parts, "|")
 	case "star", "plus", "opt":
 		suffix := map[string]string{"star": "*", "plus": "+", "opt": "?"}[r.Op]
+		// an atom is repeated as written (".*", "[ab]+", "x?": the forms people write, and the ones an
+		// implementation might special-case); anything else is wrapped in a non-capturing group
+		if sub := r.Subs[0]; sub.Op == "any" || sub.Op == "class" || sub.Op == "group" || (sub.Op == "lit" && len([]rune(sub.Lit)) == 1) {
+			return sub.String() + suffix
+		}
 		return "(?:" + r.Subs[0].String() + ")" + suffix
 	case "group":
 		return "(" + r.Subs[0].String() + ")"
